@@ -598,3 +598,93 @@ func RaceStageC14(seed uint64, rounds int) []*Violation {
 func postC14(seed uint64, tier string, cov *Cov) ([]*Violation, map[string]any, error) {
 	return runRaceStage("C14", seed, tier)
 }
+
+// shrinkC14 minimises a tasksim / history case: drop tasks, operations,
+// scheduler picks, shared snapshots' goroutines.
+func shrinkC14(c *Case, still func(*Case) bool, budget int) *Case {
+	var ex C14Extra
+	if json.Unmarshal(c.Extra, &ex) != nil {
+		return c
+	}
+	cur := c
+	evals := 0
+	try := func(e *C14Extra) bool {
+		if evals >= budget {
+			return false
+		}
+		evals++
+		b, _ := json.Marshal(e)
+		cand := *c
+		cand.Extra = b
+		if still(&cand) {
+			cur = &cand
+			ex = *e
+			return true
+		}
+		return false
+	}
+	clone := func() *C14Extra {
+		var n C14Extra
+		b, _ := json.Marshal(&ex)
+		json.Unmarshal(b, &n)
+		return &n
+	}
+	for changed := true; changed && evals < budget; {
+		changed = false
+		// fewer scheduler picks (round robin takes over)
+		for n := len(ex.Picks) / 2; n >= 1 && len(ex.Picks) > 0; n /= 2 {
+			e := clone()
+			e.Picks = e.Picks[:len(e.Picks)-n]
+			if try(e) {
+				changed = true
+			}
+		}
+		// drop whole tasks
+		for i := 0; i < len(ex.Tasks) && len(ex.Tasks) > 1; {
+			e := clone()
+			e.Tasks = append(e.Tasks[:i], e.Tasks[i+1:]...)
+			if try(e) {
+				changed = true
+			} else {
+				i++
+			}
+		}
+		// drop operations
+		for ti := range ex.Tasks {
+			for oi := 0; oi < len(ex.Tasks[ti]) && len(ex.Tasks[ti]) > 1; {
+				e := clone()
+				e.Tasks[ti] = append(e.Tasks[ti][:oi], e.Tasks[ti][oi+1:]...)
+				if try(e) {
+					changed = true
+				} else {
+					oi++
+				}
+			}
+		}
+		for oi := 0; oi < len(ex.History) && len(ex.History) > 1; {
+			e := clone()
+			e.History = append(e.History[:oi], e.History[oi+1:]...)
+			if try(e) {
+				changed = true
+			} else {
+				oi++
+			}
+		}
+		// fewer goroutines in the inputs
+		for di := range ex.Docs {
+			for ii := range ex.Docs[di].Items {
+				for gi := 0; gi < len(ex.Docs[di].Items[ii].Gors) && len(ex.Docs[di].Items[ii].Gors) > 1; {
+					e := clone()
+					g := e.Docs[di].Items[ii].Gors
+					e.Docs[di].Items[ii].Gors = append(g[:gi], g[gi+1:]...)
+					if try(e) {
+						changed = true
+					} else {
+						gi++
+					}
+				}
+			}
+		}
+	}
+	return cur
+}
